@@ -11,7 +11,7 @@
 From BP Require Import Base.Prelude Model.Types Model.Object Model.Eq Model.Encode Model.Decode.
 From BP Require Import Model.History Model.C07Ops Model.C07Step Model.C07Wire Model.WellFormed.
 From BP Require Import Proofs.C07InvP Proofs.C07LoadP Proofs.C07HistP Proofs.C07WireP Proofs.C07ParseP Proofs.C07EncP Proofs.C07ObsP.
-From BP Require Import Model.Json Proofs.C07JsonP.
+From BP Require Import Proofs.C07ValP Model.Json Proofs.C07JsonP.
 
 (* ---- the invariant: initial states ---- *)
 Theorem C07_inv_init_new : forall sc c, Inv sc (new sc c).
@@ -161,6 +161,30 @@ Theorem C07_observable : forall sc o bs,
 Proof. exact observable. Qed.
 Print Assumptions C07_observable.
 
+(* ... and the side condition is itself an invariant: after EVERY history over a well-formed schema whose operations
+   assign values (not None / list / dict) to oneof members — [op_ok] constrains OSet on a member and the kwargs of
+   construct / from_dict, nothing else; parse, pickle, copies, observers, nested assignments are unrestricted *)
+Theorem C07_observable_reachable : forall sc c ops o bs,
+  wf_schema sc = true -> Forall (op_ok sc c) ops -> run7 sc (new sc c) ops = Ok o -> enc_obj sc o = Ok bs ->
+  exists body rs,
+    bs = body ++ ounk o /\ records body = Some rs /\
+    forall g, (g < cngroups (get_class sc (ocls o)))%nat ->
+      match which_one_of o g with
+      | Some i =>
+          exists f, nth_error (cfs sc o) i = Some f /\ In (fnum f) (numbers rs) /\
+                    forall j f', j <> i -> nth_error (cfs sc o) j = Some f' -> fgroup f' = Some g ->
+                                 ~ In (fnum f') (numbers rs)
+      | None =>
+          forall j f', nth_error (cfs sc o) j = Some f' -> fgroup f' = Some g -> ~ In (fnum f') (numbers rs)
+      end.
+Proof. exact observable_reachable. Qed.
+Print Assumptions C07_observable_reachable.
+
+Theorem C07_selected_values_reachable : forall sc c ops o,
+  wf_schema sc = true -> Forall (op_ok sc c) ops -> run7 sc (new sc c) ops = Ok o -> selected_values_ok sc o.
+Proof. exact selected_values_reachable. Qed.
+Print Assumptions C07_selected_values_reachable.
+
 (* every chunk dump() writes for a field is a sequence of records of that field's number — whatever the value *)
 Theorem C07_field_chunk : forall enc sc f sel v chunk,
   1 <= fnum f -> emit_field enc sc f sel v = Ok chunk ->
@@ -185,6 +209,21 @@ Theorem C07_json_observable : forall cs incl sc o,
     end.
 Proof. exact to_dict_observable. Qed.
 Print Assumptions C07_json_observable.
+
+Theorem C07_json_observable_reachable : forall cs incl sc c ops o,
+  wf_schema sc = true -> Forall (op_ok sc c) ops -> run7 sc (new sc c) ops = Ok o -> keys_distinct cs sc (ocls o) ->
+  forall g, (g < cngroups (get_class sc (ocls o)))%nat ->
+    match which_one_of o g with
+    | Some i =>
+        exists f, nth_error (cfs sc o) i = Some f /\ In (key_of_field cs f) (jkeys (to_dict cs incl sc o)) /\
+                  forall j f', j <> i -> nth_error (cfs sc o) j = Some f' -> fgroup f' = Some g ->
+                               ~ In (key_of_field cs f') (jkeys (to_dict cs incl sc o))
+    | None =>
+        forall j f', nth_error (cfs sc o) j = Some f' -> fgroup f' = Some g ->
+                     ~ In (key_of_field cs f') (jkeys (to_dict cs incl sc o))
+    end.
+Proof. exact to_dict_observable_reachable. Qed.
+Print Assumptions C07_json_observable_reachable.
 
 (* from_dict of the JSON model (JSON values converted by Message._from_dict_init as modelled by C04) *)
 Theorem C07_inv_json_from_dict_cls : forall sc c j o, Json.from_dict_cls sc c j = Ok o -> Inv sc o.
@@ -277,3 +316,12 @@ Example C07_ex_json :
   jkeys (to_dict CAMEL true ex_sc o) = [[x61]; [x74]] /\ jkeys (to_dict CAMEL false ex_sc o) = [[x61]; [x74]] /\
   jkeys (to_dict SNAKE true ex_sc (new ex_sc 11)) = [[x74]].
 Proof. vm_compute. repeat split. Qed.
+
+(* the example history satisfies the hypothesis of the *_reachable theorems *)
+Example C07_ex_ops_ok : Forall (op_ok ex_sc 11) ex_ops.
+Proof.
+  unfold ex_ops. repeat constructor; cbn [op_ok]; try exact I; try reflexivity;
+    try (intros i v Hin _; cbn [In] in Hin;
+         repeat match goal with H : _ \/ _ |- _ => destruct H end; try contradiction;
+         match goal with H : (_, _) = (_, _) |- _ => injection H as <- <- end; reflexivity).
+Qed.
